@@ -1226,6 +1226,8 @@ package yqlib
 //@   assume @children-non-nil node != nil && forall(i, 0, len(node.Content), node.Content[i] != nil) && len(node.Content) % 2 == 0
 //@   modifies anynode.Anchor, anynode.Kind, anynode.Style, anynode.Tag, anynode.Value, anynode.Alias, anynode.Content
 //@   ensures @anchors-only-removed {C13} anchorsOnlyRemoved()
+//@   at overrideEntry: assert @an-entry-is-placed-from-its-own-position {C13} arg0 == node && arg1 == node.Content[index] && arg2 == node.Content[index+1] && arg3 == index
+//@   at applyAlias#2: assert @later-explicit-keys-are-looked-for-from-the-merge-key-on {C13} arg0 == node && arg1 == node.Content[index+1].Alias && arg2 == index
 //@   loop 1:
 //@     invariant anchorsOnlyRemoved() && fresh(newContent) && nodeList(newContent)
 //@   loop 2:
